@@ -6,12 +6,16 @@
 //                      given: used only to look at what an over-reading writer produces),
 //                      the file <outdir>/<fmt>_<n>.bin is written, line "<path>" printed
 //   harness trace <outdir>
-//        stdin lines:  T <pname|-> { | <tname|-> op op ... }     one "|" group per thread
+//        stdin lines:  T <pname|-> { | <tname|-> op op ... }     one "|" group per thread; "||" instead of "|" first joins all
+//                      threads started so far (a new phase: later threads do not overlap earlier ones and may be given
+//                      the thread id of a finished one); "|@" runs the script on the main thread, after a join
 //                      op:  B:name:cat  E  M:name:cat  C:name:value  S    (cat "-" = null, S = sleep 150us)
 //        per case:     threads record concurrently through rkcommon::tracing::{beginEvent,...},
 //                      then saveLog(<outdir>/trace_<n>.json); line "<path> <info of thread 0>;<info of thread 1>;..."
 //                      info = chunk sizes "a,b,c" "/" smallest chunk capacity "/" recorded steady_clock times (ns) "t,t,t"
-//                      ("-" for a thread that has no event list or an empty one)
+//                      ("-" for a thread that has no event list or an empty one), then "#" and a hash of the
+//                      thread's std::thread::id (sizes and times are those of the list the thread records into at its
+//                      end: the whole shared list when it continues the list of an earlier thread with the same id)
 #include <cstdint>
 #include <cstdio>
 #include <cstdlib>
@@ -111,6 +115,7 @@ static void runThread(ThreadScript *ts)
     }
   }
   if (first) s << "-"; else s << "/" << mincap << "/" << tm.str();
+  s << "#" << std::hash<std::thread::id>()(std::this_thread::get_id());
   ts->sizes = s.str();
 }
 
@@ -122,14 +127,28 @@ static int mainTrace(const std::string &outdir)
     std::string tok, pname;
     is >> tok >> pname;
     std::vector<ThreadScript> scripts;
+    std::vector<int> phase;          // phase of each script; -1 = run on the main thread
+    std::vector<int> mainAfter;      // for main-thread scripts: the phase they follow
+    int ph = 0;
     while (is >> tok) {
-      if (tok == "|") { scripts.push_back(ThreadScript()); is >> scripts.back().tname; }
+      if (tok == "|" || tok == "||" || tok == "|@") {
+        if (tok == "||") ++ph;
+        if (tok == "|@") { ++ph; phase.push_back(-1); mainAfter.push_back(ph); ++ph; }
+        else { phase.push_back(ph); mainAfter.push_back(0); }
+        scripts.push_back(ThreadScript()); is >> scripts.back().tname;
+      }
       else scripts.back().ops.push_back(tok);
     }
     if (n > 0) tracing::traceRecorder = rkcommon::make_unique<tracing::TraceRecorder>();   // empty recorder per case
-    std::vector<std::thread> th;
-    for (auto &s : scripts) th.emplace_back(runThread, &s);
-    for (auto &t : th) t.join();
+    tracing::threadEventList = nullptr;                                                   // and no cached list on the main thread
+    for (int p = 0; p <= ph; ++p) {
+      std::vector<std::thread> th;
+      for (size_t i = 0; i < scripts.size(); ++i) {
+        if (phase[i] == p) th.emplace_back(runThread, &scripts[i]);
+        else if (phase[i] == -1 && mainAfter[i] == p) runThread(&scripts[i]);
+      }
+      for (auto &t : th) t.join();
+    }
     std::string path = outdir + "/trace_" + std::to_string(n++) + ".json";
     std::remove(path.c_str());
     tracing::saveLog(path.c_str(), pname == "-" ? nullptr : pname.c_str());
